@@ -34,7 +34,7 @@ SPEC = {
   'rule': (
     'optimizer cases: random nested param trees / NNX module graphs (shared Variables, several Variable types, tags) '
     'with small integer leaves, an optax transformation drawn from stateless/stateful/chained/scheduled/adaptive families, '
-    '1-4 gradient steps, ~38% of the cases in mixed precision (bfloat16/float16 params with some float32 leaves, gradients of the same or wider dtype, transformations with float32 accumulators; compared bit for bit incl. dtype with the by-hand loop), start values of the step counter near the top of int32/uint32/int8/uint8/int16 in ~38% of the cases, a random `wrt` filter (NNX), optional OWG form and kwargs (Linen); a case is non-trivial when at '
+    '1-4 gradient steps, ~38% of the cases in mixed precision (bfloat16/float16 params with some float32 leaves, gradients of the same or wider dtype, transformations with float32 accumulators; compared bit for bit incl. dtype with the by-hand loop), start values of the step counter near the top of int32/uint32/int8/uint8/int16 in ~38% of the cases, value hooks (on_set_value / on_get_value via metadata or subclass) on some Variables with stateful transformations (NNX), a random `wrt` filter (NNX), optional OWG form and kwargs (Linen); a case is non-trivial when at '
     'least one step is applied to at least one leaf. metric cases: integer/dyadic value streams of length 0-40 x two random '
     'partitions into scalar/array batches; non-trivial when the stream is split into >= 2 update calls. distinct = distinct '
     'canonical JSON of the case.'
@@ -1347,6 +1347,29 @@ class Node(nnx.Module):
   pass
 
 
+# value hooks: user-level constraints applied by `variable.value = …` / `variable.value`; the optimizer
+# wrappers move raw values, so none of them may fire on params or on optimizer-state slots
+def hook_clamp(variable, value):
+  return jnp.maximum(value, 0.0)
+
+
+def hook_round(variable, value):
+  return jnp.round(value)
+
+
+def hook_negate(variable, value):
+  return -value
+
+
+class HookParam(nnx.Param):
+  def on_set_value(self, value):
+    return jnp.maximum(value, 0.0)
+
+
+VTYPES_HOOK = {'HookParam': HookParam}
+_HOOKRNG = None  # private rng, set only while an optimizer case is generated (keeps the main stream unchanged)
+
+
 def gen_module(rng, reg, depth=0):
   m = Node()
   names = rng.sample(KEYS, rng.randrange(1, 5))
@@ -1375,7 +1398,17 @@ def gen_module(rng, reg, depth=0):
         md['tag'] = rng.choice(TAGS)
       if rng.random() < 0.2:
         md['note'] = rng.choice(['n1', 'n2'])
-      v = VTYPES[vt](gen_array(rng), **md)
+      cls = VTYPES[vt]
+      if _HOOKRNG is not None and _HOOKRNG.random() < 0.4:
+        h = _HOOKRNG.choice(['set-clamp', 'set-round', 'set-negate', 'get-negate', 'subclass'])
+        if h == 'subclass' and vt == 'Param':
+          cls = HookParam
+        elif h.startswith('set-'):
+          md['on_set_value'] = {'set-clamp': hook_clamp, 'set-round': hook_round, 'set-negate': hook_negate}[h]
+        else:
+          md['on_get_value'] = hook_negate
+        reg['hooks'] = reg.get('hooks', 0) + 1
+      v = cls(gen_array(rng), **md)
       setattr(m, name, v)
       reg['vars'].append(v)
       reg['refs'].append((m, name, v))
@@ -1440,7 +1473,7 @@ def walk(model, path):
 
 
 def var_snapshot(v):
-  return (type(v).__name__, tuple(sorted((k, repr(x)) for k, x in v.get_metadata().items())), bits(v.value))
+  return (type(v).__name__, tuple(sorted((k, repr(x)) for k, x in v.get_metadata().items())), bits(v.raw_value))
 
 
 def opt_leaves(opt):
@@ -1456,9 +1489,9 @@ def opt_state_json_impl(opt):
     if kn == 'OptVariable':
       md = L.get_metadata()
       st = md.get('source_type')
-      out.append({'vs': [{'types': [c.__name__ for c in st.__mro__] if isinstance(st, type) else ['?'], 'tag': md.get('tag')}, arr_json(L.value)]})
+      out.append({'vs': [{'types': [c.__name__ for c in st.__mro__] if isinstance(st, type) else ['?'], 'tag': md.get('tag')}, arr_json(L.raw_value)]})
     else:
-      out.append({'arr': arr_json(L.value)})
+      out.append({'arr': arr_json(L.raw_value)})
   return out, kinds
 
 
@@ -1469,9 +1502,9 @@ def opt_state_canon_impl(opt):
     if type(L).__name__ == 'OptVariable':
       md = dict(L.get_metadata())
       st = md.pop('source_type', None)
-      out.append(('vs', getattr(st, '__name__', repr(st)), tuple(sorted((k, repr(v)) for k, v in md.items())), bits(L.value)))
+      out.append(('vs', getattr(st, '__name__', repr(st)), tuple(sorted((k, repr(v)) for k, v in md.items())), bits(L.raw_value)))
     elif type(L).__name__ == 'OptArray':
-      out.append(('arr', bits(L.value)))
+      out.append(('arr', bits(L.raw_value)))
     else:
       out.append(('other', type(L).__name__))
   return out
@@ -1540,7 +1573,7 @@ def run_optimizer_case(ctx, c):
     grads = [jax.tree.map(lambda x: gen_array(grng, tuple(np.shape(x))), params0) for _ in range(c['steps'])]
   if c['malformed'] == 'grads-missing-leaf':
     grads[-1] = drop_state_leaf(grads[-1])
-  canon = {'kind': 'nnx-optimizer', 'step_start': c.get('step_start'), 'prec': c.get('prec'), 'cseed': c.get('cseed'), 'force': c.get('force'), 'tx': c['tx'], 'wrt': c['wrt'], 'sugar': c['sugar'], 'model': nstate_json(nnx.state(model)),
+  canon = {'kind': 'nnx-optimizer', 'hooks': c.get('hooks', 0), 'step_start': c.get('step_start'), 'prec': c.get('prec'), 'cseed': c.get('cseed'), 'force': c.get('force'), 'tx': c['tx'], 'wrt': c['wrt'], 'sugar': c['sugar'], 'model': nstate_json(nnx.state(model)),
            'aliases': reg['shared'], 'grads': [nstate_json(g) for g in grads], 'malformed': c['malformed']}
   viol = []
   init_state, trace, herr = hand_loop(c['mk'](), params0, grads)
@@ -1640,6 +1673,7 @@ def check_optimizer(ctx, drv, cases):
     ctx.count('opt_wrt_head', next(iter(c['wrt'])) if isinstance(c['wrt'], dict) else c['wrt'])
     ctx.count('opt_malformed', c['malformed'])
     ctx.count('opt_precision', c.get('prec') or 'float32')
+    ctx.count('opt_value_hooks', min(c.get('hooks', 0), 3))
     ctx.count('opt_step_start', _step_bucket(c.get('step_start')))
     ctx.count('opt_model_compared', req is not None)
     for key, what in viol:
@@ -1845,10 +1879,25 @@ def seeded(gen, cseed, force=None):
   r = prng.random()
   low = None if r < 0.62 else (jnp.bfloat16 if r < 0.84 else jnp.float16)
   _PREC = None if low is None else (low, prng)
+  global _HOOKRNG
+  hrng = _random.Random(cseed * 2 + 11)
+  _HOOKRNG = hrng if (gen.__name__ in ('gen_optimizer_case', 'gen_ntrainstate_case') and hrng.random() < 0.4) else None
   try:
     c = gen(_random.Random(cseed), force) if force is not None else gen(_random.Random(cseed))
   finally:
     _PREC = None
+    _HOOKRNG = None
+  c['hooks'] = c.get('reg', {}).get('hooks', 0)
+  if c['hooks'] and gen.__name__ == 'gen_optimizer_case' and c.get('malformed') is None and low is None and hrng.random() < 0.7:
+    # value hooks matter for stateful transformations whose state goes negative
+    c['tx'], c['mk'] = hrng.choice([
+      ('adam(1e-2)', lambda: optax.adam(1e-2)),
+      ('sgd(0.5,momentum=0.5)', lambda: optax.sgd(0.5, momentum=0.5)),
+      ('MultiSteps(sgd(0.5),2)', lambda: optax.MultiSteps(optax.sgd(0.5), 2).gradient_transformation()),
+      ('chain(trace(0.5),scale(-0.25))', lambda: optax.chain(optax.trace(decay=0.5), optax.scale(-0.25))),
+      ('chain(scale_by_adam(),scale_by_schedule)', lambda: optax.chain(optax.scale_by_adam(), optax.scale_by_schedule(lambda c_: -0.1 / (1.0 + c_)))),
+    ])
+    c['steps'] = max(c['steps'], 3)
   c['cseed'] = cseed
   c['force'] = force
   c['prec'] = None if low is None else jnp.dtype(low).name
